@@ -273,6 +273,147 @@ def extract(model_py: Path):
     return rows
 
 
+# --------------------------------------------------------------------------- `_check_function_arity` and the sanity-check chain
+
+
+def _arity_expr(node, env):
+    """Lean Bool/Nat expression for the small expression language of `_check_function_arity`"""
+    if isinstance(node, ast.Name):
+        if node.id in env:
+            return env[node.id]
+        if node.id == "arity":
+            return ("nat", "arity")
+        raise Unsupported(f"name {node.id} in _check_function_arity")
+    if isinstance(node, ast.Attribute) and isinstance(node.value, ast.Name) and env.get(node.value.id) == ("spec",):
+        if node.attr in ("args", "defaults", "kwonlyargs", "varargs"):
+            return ("field", node.attr)
+        raise Unsupported(f"argspec.{node.attr}")
+    if isinstance(node, ast.Call) and isinstance(node.func, ast.Name) and node.func.id == "len" and len(node.args) == 1:
+        f = _arity_expr(node.args[0], env)
+        if f == ("field", "args"):
+            return ("nat", "sig.nargs")
+        if f == ("field", "defaults"):
+            return ("nat", "sig.defaults.getD 0")
+        if f == ("field", "kwonlyargs"):
+            return ("nat", "sig.kwonly")
+        raise Unsupported("len() of something else")
+    if isinstance(node, ast.Call) and isinstance(node.func, ast.Name) and node.func.id == "bool" and len(node.args) == 1:
+        f = _arity_expr(node.args[0], env)
+        if f[0] != "bool":
+            raise Unsupported("bool() of a non-boolean")
+        return f
+    if isinstance(node, ast.BinOp) and isinstance(node.op, ast.Add):
+        l, r = _arity_expr(node.left, env), _arity_expr(node.right, env)
+        if l[0] == r[0] == "nat":
+            return ("nat", f"({l[1]} + {r[1]})")
+        raise Unsupported("+ on non-numbers")
+    if isinstance(node, ast.Compare) and len(node.ops) == 1:
+        op, l, rn = node.ops[0], _arity_expr(node.left, env), node.comparators[0]
+        if isinstance(op, (ast.IsNot, ast.Is)) and isinstance(rn, ast.Constant) and rn.value is None:
+            if l == ("field", "varargs"):
+                b = "sig.varargs"
+            elif l == ("field", "defaults"):
+                b = "sig.defaults.isSome"
+            else:
+                raise Unsupported("is None on something else")
+            return ("bool", b if isinstance(op, ast.IsNot) else f"(!{b})")
+        if isinstance(op, ast.Eq):
+            r = _arity_expr(rn, env)
+            if l[0] == r[0] == "nat":
+                return ("bool", f"({l[1]} == {r[1]})")
+        raise Unsupported("comparison form")
+    if isinstance(node, ast.BoolOp):
+        parts = [_arity_expr(v, env) for v in node.values]
+        if any(p[0] != "bool" for p in parts):
+            raise Unsupported("and/or on non-booleans")
+        return ("bool", "(" + (" && " if isinstance(node.op, ast.And) else " || ").join(p[1] for p in parts) + ")")
+    if isinstance(node, ast.Constant) and isinstance(node.value, bool):
+        return ("bool", "true" if node.value else "false")
+    raise Unsupported(f"expression {ast.dump(node)[:60]} in _check_function_arity")
+
+
+def check_function_arity(tree) -> str:
+    """body of the module-level `_check_function_arity(function, arity)` as a Lean expression over `sig`, `arity`:
+    a sequence of `name = <expr>` / `if <cond>: return <bool>` and a final `return <bool expr>`"""
+    fn = next((n for n in tree.body if isinstance(n, ast.FunctionDef) and n.name == "_check_function_arity"), None)
+    if fn is None:
+        raise Unsupported("_check_function_arity not found")
+    if [a.arg for a in fn.args.args] != ["function", "arity"]:
+        raise Unsupported("_check_function_arity signature")
+    env = {}
+    clauses = []
+    final = None
+    for st in fn.body:
+        if isinstance(st, ast.Expr) and isinstance(st.value, ast.Constant):
+            continue
+        if final is not None:
+            raise Unsupported("statement after the final return")
+        if isinstance(st, ast.Assign) and len(st.targets) == 1 and isinstance(st.targets[0], ast.Name):
+            v = st.value
+            if (isinstance(v, ast.Call) and isinstance(v.func, ast.Attribute) and v.func.attr == "getfullargspec"
+                    and len(v.args) == 1 and isinstance(v.args[0], ast.Name) and v.args[0].id == "function"):
+                env[st.targets[0].id] = ("spec",)
+            else:
+                env[st.targets[0].id] = _arity_expr(v, env)
+        elif isinstance(st, ast.If) and not st.orelse and len(st.body) == 1 and isinstance(st.body[0], ast.Return):
+            c, r = _arity_expr(st.test, env), _arity_expr(st.body[0].value, env)
+            if c[0] != "bool" or r[0] != "bool":
+                raise Unsupported("if/return types")
+            clauses.append((c[1], r[1]))
+        elif isinstance(st, ast.Return):
+            r = _arity_expr(st.value, env)
+            if r[0] != "bool":
+                raise Unsupported("final return type")
+            final = r[1]
+        else:
+            raise Unsupported(f"statement {type(st).__name__} in _check_function_arity")
+    if final is None:
+        raise Unsupported("_check_function_arity has no final return")
+    out = final
+    for c, r in reversed(clauses):
+        out = f"if {c} then {r} else {out}"
+    return out
+
+
+def arity_checked(cls):
+    """the operands of the `it.chain(...)` the sanity-check loop of `_create_cache` walks, in order, and the
+    exception it raises"""
+    cc = next((n for n in cls.body if isinstance(n, ast.FunctionDef) and n.name == "_create_cache"), None)
+    if cc is None:
+        raise Unsupported("_create_cache not found")
+    loops = [n for n in ast.walk(cc) if isinstance(n, ast.For) and any(
+        isinstance(c, ast.Call) and isinstance(c.func, ast.Name) and c.func.id == "_check_function_arity"
+        for c in ast.walk(n))]
+    if len(loops) != 1:
+        raise Unsupported(f"{len(loops)} arity-check loops in _create_cache")
+    lp = loops[0]
+    it_ = lp.iter
+    if not (isinstance(it_, ast.Call) and isinstance(it_.func, ast.Attribute) and it_.func.attr == "chain"):
+        raise Unsupported("arity-check loop does not iterate it.chain(...)")
+    names = []
+    for a in it_.args:
+        if not (isinstance(a, ast.Call) and isinstance(a.func, ast.Attribute) and a.func.attr == "items"):
+            raise Unsupported("chain operand is not <x>.items()")
+        v = a.func.value
+        if isinstance(v, ast.Name):
+            names.append(v.id)
+        elif _is_self_attr(v):
+            names.append(v.attr)
+        else:
+            raise Unsupported("chain operand")
+    body = lp.body
+    if not (len(body) == 1 and isinstance(body[0], ast.If) and isinstance(body[0].test, ast.UnaryOp)
+            and isinstance(body[0].test.op, ast.Not) and len(body[0].body) == 1 and isinstance(body[0].body[0], ast.Raise)):
+        raise Unsupported("shape of the arity-check loop body")
+    exc = _raised(body[0])[2:]
+    # the loop must come before the dependency sort
+    sort_line = next((n.lineno for n in ast.walk(cc) if isinstance(n, ast.Call) and isinstance(n.func, ast.Name)
+                      and n.func.id == "_sort_dependencies"), None)
+    if sort_line is None:
+        raise Unsupported("_sort_dependencies call not found in _create_cache")
+    return names, exc, lp.lineno < sort_line
+
+
 def _ev_lean(e):
     k = e[0]
     if k == "I":
@@ -299,7 +440,7 @@ def _strs(l):
     return "[" + ", ".join(f'"{x}"' for x in l) + "]"
 
 
-def render(rows, eqf) -> str:
+def render(rows, eqf, arity_body, chain) -> str:
     names = [r["name"] for r in rows]
     L = []
     L.append("-- GENERATED by translate/c03.py from src/mxlpy/model.py (class Model); do not edit")
@@ -388,6 +529,28 @@ def render(rows, eqf) -> str:
     L.append("/-- dataclass fields of `Model` that the generated `__eq__` compares (no `compare=False`) -/")
     L.append(f"def eqFields : List String := {_strs(eqf)}")
     L.append("")
+    L.append("/-- what `inspect.getfullargspec` tells `_check_function_arity` about a function: number of positional")
+    L.append("    parameters, length of `defaults` (none = `None`), number of keyword-only parameters, `*args` present -/")
+    L.append("structure Sig where")
+    L.append("  nargs : Nat")
+    L.append("  defaults : Option Nat := none")
+    L.append("  kwonly : Nat := 0")
+    L.append("  varargs : Bool := false")
+    L.append("deriving DecidableEq, Repr, Inhabited")
+    L.append("")
+    L.append("/-- the module-level `_check_function_arity(function, arity)`, statement by statement -/")
+    L.append("def checkFunctionArity (sig : Sig) (arity : Nat) : Bool :=")
+    L.append("  " + arity_body)
+    L.append("")
+    L.append("/-- the dictionaries whose functions `_create_cache` checks, in the order of its `it.chain(...)` -/")
+    L.append(f"def arityChecked : List String := {_strs(chain[0])}")
+    L.append("")
+    L.append("/-- the exception the sanity-check loop raises -/")
+    L.append(f'def arityError : String := "{chain[1]}"')
+    L.append("")
+    L.append("/-- the sanity-check loop precedes the dependency sort (its exception wins over a missing dependency) -/")
+    L.append(f"def arityBeforeSort : Bool := {'true' if chain[2] else 'false'}")
+    L.append("")
     L.append("end Mxl.C03.Gen")
     return "\n".join(L) + "\n"
 
@@ -395,7 +558,8 @@ def render(rows, eqf) -> str:
 def generate(repo: Path, outdir: Path) -> None:
     src = Path(repo) / "src" / "mxlpy" / "model.py"
     rows = extract(src)
-    text = render(rows, eq_fields(_model_class(src)[1]))
+    tree, cls = _model_class(src)
+    text = render(rows, eq_fields(cls), check_function_arity(tree), arity_checked(cls))
     outdir.mkdir(parents=True, exist_ok=True)
     out = outdir / "C03Mutators.lean"
     if not out.exists() or hashlib.sha1(out.read_bytes()).hexdigest() != hashlib.sha1(text.encode()).hexdigest():
